@@ -89,7 +89,15 @@ CHECKS = {
             "list/array b,i,q,d/numpy, bounds as int/list/tuple/range/array up to +-2^40 and next to 2^53/2^62, gene types checked for bit flip); the buffer model by calling "
             "EVERY operator with the same draws on list, array.array and numpy.ndarray individuals (ES: numpy and list strategies) and comparing with the model under both "
             "disciplines, including the gene-losing numpy results, the raised ValueError and the contents the exception leaves behind; statement evaluated as oracle on the "
-            "real objects.",
+            "real objects. HISTORIES: OpHistory (Core/CrossMutBuf.lean) is a process of events - operator calls on objects of three heaps (permutation, integer, strategy "
+            "objects), calls that raise midway (the heap stays as the exception left it), refused calls, the caller overwriting individuals or low/up bound lists in place - "
+            "whose state is the heaps and nothing else; mutUniformInt takes its bounds by reference and reads them when it is called. op_result_history_independent: after "
+            "ANY history from any start state, a call whose arguments meet the hypotheses now completes, returns its arguments and leaves in them the list model's result "
+            "on their current contents, every other object untouched (ox_result_depends_on_current_contents_only, uniform_int_reads_bounds_at_call_time are the two "
+            "instances that name what memoised bounds / markers left dirty by an aborted call would break). The history stream (second in the run) runs 2-6 calls per "
+            "process image on reused objects - bound lists and individuals overwritten in place between calls, tours numbered 1..n / labels >= size / too-short bounds / "
+            "low > up / too-short individuals / numpy slices of unequal length raising in between - judges EVERY valid call by the statement against its own arguments at "
+            "call time and replays the whole history, aborted calls' partial states included, on that machine.",
             TB + "CPython list/array item+slice assignment and tuple-assignment order as transcribed; numpy slice = view, item = scalar (one-dimensional individuals), "
             "assignment-time read of the right-hand side (overlap copied first, numpy >= 1.13), broadcast rule as transcribed in Core/Buffer.lean and exercised on real "
             "arrays by the representation stream; random functions return values in their documented ranges (uniform_int_bounds is about position<->bound alignment); "
@@ -170,10 +178,15 @@ CHECKS = {
             "Lean theorems (C06.k0*, length_*/refs_* for all eleven operators, best_sorted/worst_sorted, tournament_winner(+total), random_total, "
             "double_size_first_iff/double_fitness_first_iff/parsimony_rule/double_total_* (the parsimony stage: the smaller individual wins iff r < ps/2), "
             "roulette_share(+total, length), sus_total/sus_counts (0<r<1)/sus_counts_r0 (boundary draw, F13), lexicase_tol/lexicase_pareto/epsilon_lexicase_tol/"
-            "auto_lexicase_tol/lexicase_step_total (the epsilon variants in the tolerance reading of DESIGN 6), length_dcd/refs_dcd/dcd_twice/dcd_total) hold for every "
+            "auto_lexicase_tol/lexicase_step_total (the epsilon variants in the tolerance reading of DESIGN 6), length_dcd/refs_dcd/dcd_twice/dcd_total, "
+            "roulette_shares_positions/sus_counts_positions (an object listed at several positions: every position keeps its sector, the total is over positions), "
+            "sel_history_independent/sel_reads_weights_only (Core/SelectionHist.lean: in a session of class statements and selector calls a call gives what it gives when made "
+            "first - nothing is kept between calls, the only thing read of the class is the weights it resolves to through the MRO now)) hold for every "
             "population, k and tape over exact rationals; model Core/Selection.lean is replayed against deap.tools.sel* and emo.selTournamentDCD with the tape of their "
             "own random draws (results compared as input indices, identity by `is`), incl. near-tie fitnesses a few ulps apart, fit_attr='other', the same object listed "
-            "twice and negative values; the statement is evaluated as an oracle on the real result incl. population snapshots.",
+            "at several positions for every operator (mating pools) and negative values; histories of 2-6 calls in one process over fresh families of base / derived fitness "
+            "classes (weights overridden or inherited, both orders of first use, re-used and re-evaluated population objects, alternating fit_attr and k) are replayed against "
+            "Selection.runHistory as one request; the statement is evaluated as an oracle on the real result incl. population snapshots.",
             TB + "exact regime: dyadic fitnesses, roulette/SUS draws j/1024 with S/k dyadic; CPython sorted/max/uniform and numpy.median as modelled; inf crowding "
             "distance transported as 10^6; SUS count clause assumes the uniform draw is not exactly 0.0 (F13, companion theorem sus_counts_r0); 'never copies' and "
             "'population unmodified' are structural in the model (indices into an immutable population) and checked on the real objects; randomness drawn outside the "
@@ -374,7 +387,10 @@ CHECKS = {
             "active update incl. the capped negative one (active_rank_one_positive/negative, active_inverse_update), infeasible_inv under the inv contract, "
             "active_update_inverse / mo_update_inverse for one whole update, the (1+lambda) success rule, A A^T=C under the Cholesky contract and "
             "preservation of positive definiteness (onepl_cov_rule, onepl_factor, onepl_posdef), MO selection count / rank-then-indicator closed form / "
-            "alignment of the five per-parent lists (mo_select_count, mo_rank_then_hv, mo_alignment, mo_adjust_spec, mo_offspring_values), and the "
+            "alignment of the five per-parent lists (mo_select_count, mo_rank_then_hv, mo_alignment, mo_adjust_spec, mo_offspring_values), alignment BY IDENTITY for "
+            "arbitrary _ps tags on the initial population (mo_alignment_any_initial_tags: generate overwrites the tag of every parent - retag_setTags -, so after a round "
+            "entry i of every per-parent list is derived from the history of the i-th surviving individual itself, whatever stale tags a restarted population carried; "
+            "mo_run_tag_independent for whole histories), and the "
             "whole-history invariants active_inverse_history (invA A = I through every rank-one branch and constraint update), mo_inverse_history, "
             "mo_psucc_sigma_history and onepl_factor_history (A A^T = C with A lower-triangular, C symmetric positive definite after every round, under the Cholesky "
             "contract on symmetric positive-definite input - cholOK_two exhibits it in dimension 2; onepl_sym/onepl_posdef re-establish the precondition each round), "
@@ -387,7 +403,9 @@ CHECKS = {
             "C01's models of Fitness and ConstrainedFitness __le__/__lt__ (lexicographic, any number of objectives) in place of an abstract total preorder "
             "(fitOrd_total, cfitOrd_total). No unproved statement remains. "
             "The composed model runs _select end to end (driver op mo-sel-lib) against the real StrategyMultiObjective._select on exactly representable bi-/tri-objective "
-            "fitnesses and inside MO histories on plateau objectives. The Float instance of the same definitions is diffed against the real strategies on 1..300-round histories and the statement is evaluated "
+            "fitnesses and inside MO histories on plateau objectives. RESTART histories (a second strategy built from the shuffled / sorted / filtered parents, the next offspring or a mix "
+            "of the first one's individuals, same objects and deep copies; likewise the (1+lambda) strategies from the previous parent object) are checked by object identity and replayed "
+            "through the whole-round op mo-round from the raw tags the individuals carried. The Float instance of the same definitions is diffed against the real strategies on 1..300-round histories and the statement is evaluated "
             "as an oracle after every round while cond(A)<1e12.",
             TB + "numpy.linalg.cholesky/inv (LAPACK) and numpy.around are model parameters whose contracts (A A^T=C lower-triangular, inv(M) M=I) are validated "
             "numerically on every call; sortLogNondominated and the hypervolume indicator are the proved C04 / C15 models inside _select in the exact regime "
